@@ -1381,7 +1381,7 @@ void lp_value_pow(lp_value_t* pow, const lp_value_t* a, unsigned n) {
     lp_algebraic_number_pow(&result.value.a, &a->value.a, n);
     break;
   case LP_VALUE_PLUS_INFINITY:
-    result.type = LP_VALUE_MINUS_INFINITY;
+    result.type = LP_VALUE_PLUS_INFINITY;
     break;
   case LP_VALUE_MINUS_INFINITY:
     if (n % 2) {
